@@ -138,7 +138,7 @@ def lean_ty(t):
         if t[0] == "fn":
             return "(" + " → ".join(lean_ty(x) for x in list(t[1]) + [t[2]]) + ")"
     return {"nat": "Nat", "int": "Int", "bool": "Bool", "prio": "π", "obj": "Nat", "entry": "Entry π",
-            "unit": "Unit", "pq": "PQ π"}[t]
+            "unit": "Unit", "pq": "PQ π", "elem": "α"}[t]
 
 
 def ann_ty(a):
@@ -195,6 +195,47 @@ def entry_ctor(module):
     return [field_of[p] for p in params]
 
 
+def lin_of(v):
+    """linear form of an integer value"""
+    if v.lin is not None:
+        return v.lin
+    return [(atom(v.lean), v.ty == "nat", 1)], 0
+
+
+def lin_val(terms, const, nat):
+    """the integer value Σ coeff·atom + const, printed canonically; a `Nat` when `nat` (no
+    subtraction was involved, every atom is a `Nat`), else an `Int` with the `Nat` atoms cast"""
+    merged = []
+    for a, n, q in terms:
+        for i, (a2, n2, q2) in enumerate(merged):
+            if a2 == a:
+                merged[i] = (a, n, q + q2)
+                break
+        else:
+            merged.append((a, n, q))
+    merged = [(a, n, q) for a, n, q in merged if q != 0]
+    if nat and (const < 0 or any(q < 0 or not n for _, n, q in merged)):
+        nat = False
+    if not merged:
+        v = Val(str(const), "nat") if nat else Val(f"({const} : Int)", "int")
+        v.lin = ([], const)
+        return v
+    parts = []
+    for i, (a, n, q) in enumerate(merged):
+        x = a if (nat or not n) else f"({a} : Int)"
+        mag = x if abs(q) == 1 else f"{abs(q)} * {x}"
+        parts.append((("- " if q < 0 else "") if i == 0 else (" - " if q < 0 else " + ")) + mag)
+    if const:
+        parts.append((" - " if const < 0 else " + ") + str(abs(const)))
+    text = "".join(parts)
+    if len(merged) == 1 and merged[0][2] == 1 and not const and (nat or not merged[0][1]):
+        v = Val(merged[0][0], "nat" if nat else "int")
+    else:
+        v = Val(f"({text})", "nat" if nat else "int")
+    v.lin = (merged, const)
+    return v
+
+
 class Val:
     """a translated Python value.  Entries carry ownership (`fresh` constructed here, `moved` taken
     out of a list, `borrowed` still referenced from a list) and, when they name an element of a
@@ -203,10 +244,12 @@ class Val:
     def __init__(self, lean, ty, own=None, alias=None, src=None):
         self.lean, self.ty, self.own, self.alias, self.src = lean, ty, own, alias, src
         self.poisoned = False
+        self.lin = None        # integers: ([(atom text, atom is a Nat, coefficient)], constant) — see `lin_val`
 
     def clone(self, **kw):
         v = Val(self.lean, self.ty, self.own, self.alias, self.src)
         v.poisoned = self.poisoned
+        v.lin = self.lin
         for k, x in kw.items():
             setattr(v, k, x)
         return v
@@ -268,6 +311,8 @@ _PURE = Leaf("<pure>")
 
 class Fn:
     """translation of one method"""
+    BINDERS = BINDERS     # the fixed parameters every generated definition takes …
+    FIX = "H plt"         # … and how they are passed on
 
     def __init__(self, cls, fn, helpers, module=None):
         self.cls, self.fn, self.helpers, self.module = cls, fn, helpers, module
@@ -429,7 +474,7 @@ class Fn:
             if isinstance(e.value, bool):
                 return k(Val("true" if e.value else "false", "bool"), env)
             if isinstance(e.value, int):
-                return k(Val(str(e.value), "nat") if e.value >= 0 else Val(f"({e.value})", "int"), env)
+                return k(lin_val([], e.value, e.value >= 0), env)
             raise Unsupported(f"constant {e.value!r}")
         if isinstance(e, ast.Name):
             pl = self.place_of(e, env)
@@ -465,11 +510,34 @@ class Fn:
             if isinstance(e.op, ast.Not):
                 return self.ev(e.operand, env, lambda v, env2: k(Val(self.truth(v, neg=True), "bool"), env2))
             if isinstance(e.op, ast.USub):
-                return self.ev(e.operand, env, lambda v, env2: k(Val(f"(-{self.as_int(v)})", "int"), env2))
+                def kneg(v, env2):
+                    terms, c = lin_of(v)
+                    return k(lin_val([(a, n, -q) for a, n, q in terms], -c, False), env2)
+                return self.ev(e.operand, env, kneg)
         if isinstance(e, ast.BinOp):
             return self.ev_list([e.left, e.right], env, lambda vs, env2: k(self.binop(e, vs[0], vs[1]), env2))
         if isinstance(e, ast.BoolOp):
-            vs = [self.pure(x, env) for x in e.values]
+            try:
+                vs = [self.pure(x, env) for x in e.values]
+            except Unsupported:
+                # an operand that can raise (or has an effect): short-circuit evaluation, the
+                # continuation is duplicated like for an `if`
+                first, rest = e.values[0], e.values[1:]
+                rest_e = rest[0] if len(rest) == 1 else ast.BoolOp(op=e.op, values=rest)
+                is_and = isinstance(e.op, ast.And)
+
+                def kb(v, env2):
+                    if v.ty != "bool":
+                        raise Unsupported("and / or of operands that are not booleans")
+
+                    def kr(w, env3):
+                        if w.ty != "bool":
+                            raise Unsupported("and / or of operands that are not booleans")
+                        return k(w, env3)
+                    go = self.ev(rest_e, env2.copy(), kr)
+                    stop = k(Val("false" if is_and else "true", "bool"), env2.copy())
+                    return If(v.lean, go, stop) if is_and else If(v.lean, stop, go)
+                return self.ev(first, env, kb)
             if any(v.ty != "bool" for v in vs):
                 # `a or b` is one of its operands, not a truth value
                 raise Unsupported("and / or of operands that are not booleans")
@@ -506,13 +574,23 @@ class Fn:
 
     def binop(self, e, a, b):
         op = e.op
-        if isinstance(op, (ast.Add, ast.Mult)):
-            sym = "+" if isinstance(op, ast.Add) else "*"
-            if a.ty == "nat" and b.ty == "nat":
-                return Val(f"({a.lean} {sym} {b.lean})", "nat")
-            return Val(f"({self.as_int(a)} {sym} {self.as_int(b)})", "int")
-        if isinstance(op, ast.Sub):
-            return Val(f"({self.as_int(a)} - {self.as_int(b)})", "int")
+        if isinstance(op, (ast.Add, ast.Sub, ast.Mult)):
+            # integer arithmetic is kept as a linear form and printed canonically (like terms
+            # collected, the constant last), so `1 + c`, `c + 1`, `c * 2 + 1 - c` … give one text
+            if a.ty not in ("nat", "int") or b.ty not in ("nat", "int"):
+                raise Unsupported(f"arithmetic on {a.ty} and {b.ty}")
+            (ta, ca), (tb, cb) = lin_of(a), lin_of(b)
+            nat = a.ty == "nat" and b.ty == "nat" and not isinstance(op, ast.Sub)
+            if isinstance(op, ast.Mult):
+                if not ta:
+                    return lin_val([(x, n, q * ca) for x, n, q in tb], cb * ca, nat)
+                if not tb:
+                    return lin_val([(x, n, q * cb) for x, n, q in ta], ca * cb, nat)
+                if nat:
+                    return Val(f"({a.lean} * {b.lean})", "nat")
+                return Val(f"({self.as_int(a)} * {self.as_int(b)})", "int")
+            sign = -1 if isinstance(op, ast.Sub) else 1
+            return lin_val(ta + [(x, n, sign * q) for x, n, q in tb], ca + sign * cb, nat)
         if isinstance(op, (ast.FloorDiv, ast.RShift)) and isinstance(e.right, ast.Constant) \
                 and isinstance(e.right.value, int) and not isinstance(e.right.value, bool):
             c = e.right.value
@@ -559,7 +637,9 @@ class Fn:
             sym = "=" if isinstance(op, ast.Eq) else "≠"
             return Val(f"decide ({a.lean} {sym} {b.lean})", "bool")
         if a.ty in ("nat", "int") and b.ty in ("nat", "int"):
-            sym = {ast.Lt: "<", ast.Gt: ">", ast.LtE: "≤", ast.GtE: "≥", ast.Eq: "=", ast.NotEq: "≠"}.get(type(op))
+            if isinstance(op, (ast.Gt, ast.GtE)):            # one spelling: `a > b` is `b < a`
+                a, b, op = b, a, (ast.Lt() if isinstance(op, ast.Gt) else ast.LtE())
+            sym = {ast.Lt: "<", ast.LtE: "≤", ast.Eq: "=", ast.NotEq: "≠"}.get(type(op))
             if sym is None:
                 raise Unsupported(f"comparison {type(op).__name__}")
             if a.ty == "nat" and b.ty == "nat":
@@ -1204,7 +1284,7 @@ class Fn:
     def carried(self, stmts, env, extra=()):
         """loop-carried variables: [(kind, python name)] in a fixed order; self's state first"""
         mod = self.assigned_in(stmts)
-        out = [("obj", self.selfname)]
+        out = [("obj", self.selfname)] if self.selfname in env.objs else []
         for o in env.objs:
             if o != self.selfname and o in mod:
                 out.append(("obj", o))
@@ -1429,7 +1509,7 @@ class Fn:
         self.depth = saved
         self.cur_rais = saved_rais
         self.aux.append((f"/-- the `finally:` block at src/asynkit/tools.py:{s.finalbody[0].lineno - 1} -/\n"
-                         f"def {name} {BINDERS}{binders} : Except Exc Unit × {fty} :=", node))
+                         f"def {name} {self.BINDERS}{binders} : Except Exc Unit × {fty} :=", node))
 
         def run_fin(env2, then):
             for kind, n in items:
@@ -1439,7 +1519,7 @@ class Fn:
             pat, env3 = self.after_frame(items, env2)
             env3.dead |= fin_dead
             exc = self.fresh("exc")
-            return Match(f"{name} H plt{args}", [(f"(.error {exc}, {pat})", ctx.rais(exc, env3)),
+            return Match(f"{name} {self.FIX}{args}", [(f"(.error {exc}, {pat})", ctx.rais(exc, env3)),
                                                   (f"(.ok _, {pat})", then(env3))])
         ctx2 = ctx.with_(end=lambda e: run_fin(e, ctx.end),
                          ret=lambda v, e: run_fin(e, lambda e3: ctx.ret(v, e3)),
@@ -1466,7 +1546,7 @@ class Fn:
         saved_rais = self.cur_rais
 
         def b_next(e):
-            return Leaf(f"{name} H plt{self.pack(items, e, sep=True)}")
+            return Leaf(f"{name} {self.FIX}{self.pack(items, e, sep=True)}")
 
         def b_exit(e):
             return Leaf(f".next {atom(self.pack(items, e))}")
@@ -1476,10 +1556,10 @@ class Fn:
         self.depth = 0
         self.cur_rais = saved_rais
         self.aux.append((f"/-- the `while` loop at src/asynkit/tools.py:{s.lineno} -/\n"
-                         f"def {name} {BINDERS}{binders} : PyRt.Ctl {fty} Empty (⟪R⟫) :=", node))
+                         f"def {name} {self.BINDERS}{binders} : PyRt.Ctl {fty} Empty (⟪R⟫) :=", node))
         args = self.pack(items, env, sep=True)
         pat, env3 = self.after_frame(items, env)
-        return Match(f"{name} H plt{args}", [(".ret r", Leaf("r")), (f".next {pat}", ctx.end(env3)),
+        return Match(f"{name} {self.FIX}{args}", [(".ret r", Leaf("r")), (f".next {pat}", ctx.end(env3)),
                                               (".brk e", Leaf("nomatch e"))])
 
     def yield_stmt(self, y, env, ctx):
